@@ -62,7 +62,8 @@ def attempt_loop_contract(I, node, frame):
         p = generic_index(I, n, "inv_p")
         return rows_equal(atoms.arrays["positions"].at(I, p), old.at(I, p))
     I.path.oblige(DM + ".attempt_displacement#loop[0].init", inv(), kind="loop")
-    atoms.arrays["positions"] = old.like(old.term)          # havoc + assume the invariant
+    from pyvc.models.arrays import assign_in_place
+    assign_in_place(atoms.arrays["positions"], old.like(old.term))          # havoc + assume the invariant (object identity kept)
     more = I.path.fresh("another_attempt", "bool")
     if I.path.branch(more.t):
         yield from I.exec_block(node.body, frame)           # may `return True`
@@ -103,7 +104,7 @@ def build(S, tier):
         if preselect:
             pre = I.path.fresh("preselected", "int")
             moves[0].attrs["to_displace_labels"] = pre
-        P0 = atoms.arrays["positions"]
+        P0 = atoms.arrays["positions"].like(atoms.arrays["positions"].term)       # a frozen copy: the live array is updated in place
         return dict(atoms=atoms, labels=labels, rng=rng, ctx=ctx, moves=moves, P0=P0, n=n)
 
     # ------------------------------------------------------------------ single move
